@@ -41,11 +41,18 @@ EsiOf(p, col) == IF col < p.r THEN col + p.k ELSE col - p.r       \* of_get_symb
 RECURSIVE Simplify(_, _, _, _)
 SimplRow(p, st, row, esi, v) ==
     LET c1   == IF st.ct[row] = NoVal THEN v ELSE SymDiff(st.ct[row], v)
-        st1  == [st EXCEPT !.ct[row] = c1, !.unk[row] = st.unk[row] - 1, !.M = st.M \ { <<row, esi>> }]
+        \* ledger: a missing constant term is malloc'ed and filled with a copy of the symbol
+        L1   == IF st.ct[row] = NoVal THEN [LAlloc(st.led, 1000 + row) EXCEPT !.ctid[row] = 1000 + row] ELSE st.led
+        st1  == [st EXCEPT !.ct[row] = c1, !.unk[row] = st.unk[row] - 1, !.M = st.M \ { <<row, esi>> }, !.led = L1]
     IN  IF st1.unk[row] = 1
         THEN LET x == CHOOSE y \in RowMembers(st1, row) : TRUE
              IN  IF st1.tab[x] = NoVal
-                 THEN LET st2 == [st1 EXCEPT !.tab[x] = st1.ct[row], !.ct[row] = NoVal,
+                 THEN LET \* ledger: the released symbol gets the callback's buffer (sources, when one is registered) or a
+                          \* malloc'ed one; the constant term is copied into it and freed
+                          L2  == IF x < p.k /\ UseCb THEN [st1.led EXCEPT !.bid[x] = -2]
+                                 ELSE [LAlloc(st1.led, 2000 + x) EXCEPT !.bid[x] = 2000 + x]
+                          L3  == [LFree(L2, L2.ctid[row]) EXCEPT !.ctid[row] = 0]
+                          st2 == [st1 EXCEPT !.tab[x] = st1.ct[row], !.ct[row] = NoVal, !.led = L3,
                                              !.unk[row] = st1.unk[row] - 1, !.M = st1.M \ { <<row, x>> }]
                           st3 == Simplify(p, st2, x, st2.tab[x])
                       IN  [st3 EXCEPT !.nrep = IF x >= p.k THEN st3.nrep + 1 ELSE st3.nrep]
@@ -64,27 +71,47 @@ Simplify(p, st, esi, v) ==
                      ELSE LET rw == Min(rest) IN Walk(SimplRow(p, s, rw, esi, v), rw)
          IN  Walk(st, -1)
 
+(* ML work areas (canonical block ids): 5000 permutation array, 5001 const_term[], 5002 variable_member[],          *)
+(* 5003 column_idx[], 5004 dense matrix, 5005/5006 ofcb->index_rows/index_cols (kept until release), 5007/5008 the   *)
+(* local index arrays of create_simplified, 5009 the simplified sparse matrix; 6000 + 100*col + row right-hand sides *)
+(* created by the forward elimination (row 0: the zero buffer of a pivot), 7000 + i zero symbols of the backward     *)
+(* substitution.                                                                                                     *)
+LA(L, id) == IF id \in L.heap THEN L ELSE LAlloc(L, id)       \* "allocate if the pointer is still NULL"
+LF(L, id) == IF id > 0 THEN LFree(L, id) ELSE L               \* "free if not NULL"
 Prepare(p, st) ==
     [st EXCEPT !.unk = [ row \in Rows(p) |-> Cardinality(RowMembers(st, row)) ],
-               !.deg = [ row \in Rows(p) |-> Cardinality(RowMembers(st, row)) ]]
+               !.deg = [ row \in Rows(p) |-> Cardinality(RowMembers(st, row)) ],
+               !.led = LA(LA(st.led, 5005), 5006)]
 
 InjectAll(p, st, perm) ==
     LET srcs == SetToSortSeq({ i \in Src(p) : st.tab[i] # NoVal }, LAMBDA a, b : a < b)
         s1   == FoldLeft(LAMBDA s, e : Simplify(p, s, e, s.tab[e]), st, srcs)
         \* repairs: positions 1..r of the permutation; only those known *when their turn comes*
-    IN  FoldLeft(LAMBDA s, j : IF s.tab[p.k + j] # NoVal THEN Simplify(p, s, p.k + j, s.tab[p.k + j]) ELSE s, s1, perm)
+        s2   == [s1 EXCEPT !.led = LAlloc(s1.led, 5000)]
+        s3   == FoldLeft(LAMBDA s, j : IF s.tab[p.k + j] # NoVal THEN Simplify(p, s, p.k + j, s.tab[p.k + j]) ELSE s, s2, perm)
+    IN  [s3 EXCEPT !.led = LFree(s3.led, 5000)]
 
 (* steps 4-5 on sequences: A = sequence of rows (sets of column positions 1..q), b = right-hand sides *)
 Swap(sq, i, j) == [ x \in DOMAIN sq |-> IF x = i THEN sq[j] ELSE IF x = j THEN sq[i] ELSE sq[x] ]
 
-ElimCol(sys, i) ==          \* sys = [A, b, ok]
+(* right-hand-side blocks of the rows below the pivot of column i, in the order of the C loop: acc = [id, L, pivnull] *)
+ElimIds(acc, i, x) ==
+    IF ~acc.pivnull
+    THEN IF acc.id[x] = 0 THEN [acc EXCEPT !.L = LAlloc(acc.L, 6000 + 100 * i + x), !.id[x] = 6000 + 100 * i + x]   \* malloc + memcpy
+         ELSE acc                                                                                                \* XOR in place
+    ELSE [acc EXCEPT !.L = LAlloc(acc.L, 6000 + 100 * i), !.id[i] = 6000 + 100 * i, !.pivnull = FALSE]           \* calloc for the pivot row
+
+ElimCol(sys, i) ==          \* sys = [A, b, ok, piv, failcol, id, L]
     IF ~sys.ok THEN sys
     ELSE LET cand == { j \in i .. Len(sys.A) : i \in sys.A[j] }
          IN  IF cand = {} THEN [sys EXCEPT !.ok = FALSE, !.failcol = i]
              ELSE LET j  == Min(cand)
                       A1 == Swap(sys.A, i, j)
                       b1 == Swap(sys.b, i, j)
+                      id1 == Swap(sys.id, i, j)
                       below == { x \in (i + 1) .. Len(A1) : i \in A1[x] }
+                      ids == FoldLeft(LAMBDA acc, x : ElimIds(acc, i, x), [id |-> id1, L |-> sys.L, pivnull |-> id1[i] = 0],
+                                      SetToSortSeq(below, LAMBDA a, c : a < c))
                       A2 == [ x \in DOMAIN A1 |-> IF x \in below THEN SymDiff(A1[x], A1[i]) ELSE A1[x] ]
                       \* right-hand sides: NULL pivot term becomes a zero buffer when something lies below it
                       bi == IF b1[i] = NoVal /\ below # {} THEN {} ELSE b1[i]
@@ -93,7 +120,7 @@ ElimCol(sys, i) ==          \* sys = [A, b, ok]
                                 ELSE IF x \in below /\ b1[i] # NoVal
                                      THEN (IF b1[x] = NoVal THEN b1[i] ELSE SymDiff(b1[x], b1[i]))
                                      ELSE b1[x] ]
-                  IN  [A |-> A2, b |-> b2, ok |-> TRUE, piv |-> Append(sys.piv, j), failcol |-> 0]
+                  IN  [A |-> A2, b |-> b2, ok |-> TRUE, piv |-> Append(sys.piv, j), failcol |-> 0, id |-> ids.id, L |-> ids.L]
 
 BackSub(sys, q) ==          \* returns [x : 1..q -> value, nulldest : BOOLEAN]
     LET step(acc, i) ==     \* i runs q .. 1
@@ -107,6 +134,8 @@ BackSub(sys, q) ==          \* returns [x : 1..q -> value, nulldest : BOOLEAN]
                   nulldest |-> acc.nulldest ]
     IN  FoldLeft(step, [x |-> [ i \in 1 .. q |-> {} ], nulldest |-> FALSE], [ t \in 1 .. q |-> q + 1 - t ])
 
+FreeAll(L, ids) == FoldLeft(LAMBDA acc, id : LF(acc, id), L, ids)
+
 FinishRec(p, st0, perm) ==
     IF IsComplete(p, st0) THEN [st |-> st0, status |-> OK, nulldest |-> FALSE, badindex |-> FALSE, stage |-> "already", piv |-> <<>>, dims |-> <<0, 0>>]
     ELSE
@@ -114,15 +143,26 @@ FinishRec(p, st0, perm) ==
         cols == SetToSortSeq({ c \in 0 .. (N(p) - 1) : ColRows(st1, EsiOf(p, c)) # {} }, LAMBDA a, b : a < b)
         rows == SetToSortSeq({ rw \in Rows(p) : RowMembers(st1, rw) # {} }, LAMBDA a, b : a < b)
         q    == Len(cols)
-    IN  IF q = 0 THEN [st |-> st1, status |-> FAILURE, nulldest |-> FALSE, badindex |-> FALSE, stage |-> "empty", piv |-> <<>>, dims |-> <<Len(rows), 0>>]
-        ELSE IF Len(rows) < q THEN [st |-> st1, status |-> FAILURE, nulldest |-> FALSE, badindex |-> FALSE, stage |-> "fewrows", piv |-> <<>>, dims |-> <<Len(rows), q>>]
+        \* create_simplified_linear_system: two local index arrays; on failure they and ofcb->index_rows/cols are freed
+        Lfail == LFree(LFree(st1.led, 5005), 5006)
+        stF  == [st1 EXCEPT !.led = Lfail]
+    IN  IF q = 0 THEN [st |-> stF, status |-> FAILURE, nulldest |-> FALSE, badindex |-> FALSE, stage |-> "empty", piv |-> <<>>, dims |-> <<Len(rows), 0>>]
+        ELSE IF Len(rows) < q THEN [st |-> stF, status |-> FAILURE, nulldest |-> FALSE, badindex |-> FALSE, stage |-> "fewrows", piv |-> <<>>, dims |-> <<Len(rows), q>>]
         ELSE
         LET colpos(esi) == CHOOSE j \in 1 .. q : cols[j] = ColOf(p, esi)
             A0   == [ i \in 1 .. Len(rows) |-> { colpos(e) : e \in RowMembers(st1, rows[i]) } ]
             b0   == [ i \in 1 .. Len(rows) |-> st1.ct[rows[i]] ]
-            sys  == FoldLeft(ElimCol, [A |-> A0, b |-> b0, ok |-> TRUE, piv |-> <<>>, failcol |-> 0], [ i \in 1 .. q |-> i ])
-        IN  IF ~sys.ok THEN [st |-> [st1 EXCEPT !.ct = [ rw \in Rows(p) |-> IF RowMembers(st1, rw) # {} THEN NoVal ELSE st1.ct[rw] ]],
-                             status |-> FAILURE, nulldest |-> FALSE, badindex |-> FALSE, stage |-> "singular", piv |-> Append(sys.piv, -sys.failcol), dims |-> <<Len(rows), q>>]
+            \* dense matrix, column_idx, const_term[] (the constant terms of the system's rows move into it), variable_member[]
+            id0  == [ i \in 1 .. Len(rows) |-> st1.led.ctid[rows[i]] ]
+            L0   == LAlloc(LAlloc(LAlloc(LAlloc(st1.led, 5004), 5003), 5001), 5002)
+            L0m  == [L0 EXCEPT !.ctid = [ rw \in Rows(p) |-> IF RowMembers(st1, rw) # {} THEN 0 ELSE L0.ctid[rw] ]]
+            sys  == FoldLeft(ElimCol, [A |-> A0, b |-> b0, ok |-> TRUE, piv |-> <<>>, failcol |-> 0, id |-> id0, L |-> L0m], [ i \in 1 .. q |-> i ])
+            arrays == <<5001, 5002, 5003, 5004>>
+        IN  IF ~sys.ok
+            THEN \* failure label: every non-NULL const_term[i] is freed, then the arrays and the dense matrix
+                 LET Lx == FreeAll(FreeAll(sys.L, sys.id), arrays)
+                 IN  [st |-> [st1 EXCEPT !.ct = [ rw \in Rows(p) |-> IF RowMembers(st1, rw) # {} THEN NoVal ELSE st1.ct[rw] ], !.led = Lx],
+                      status |-> FAILURE, nulldest |-> FALSE, badindex |-> FALSE, stage |-> "singular", piv |-> Append(sys.piv, -sys.failcol), dims |-> <<Len(rows), q>>]
             ELSE
             LET sol    == BackSub(sys, q)
                 nrepml == p.r - st1.nrep                      \* "number of repair found in ML"
@@ -132,7 +172,22 @@ FinishRec(p, st0, perm) ==
                               IF e \in Src(p) /\ st1.tab[e] = NoVal /\ ~bad
                               THEN sol.x[nrepml + (CHOOSE t \in DOMAIN holes : holes[t] = e)]
                               ELSE st1.tab[e] ]
-            IN  [ st |-> [st1 EXCEPT !.tab = tab2, !.M = {}], status |-> OK, nulldest |-> sol.nulldest, badindex |-> bad, stage |-> "ge", piv |-> sys.piv, dims |-> <<Len(rows), q>> ]
+                \* ledger of the backward substitution: variable i takes over const_term[i] (a zero symbol is calloc'ed for NULL)
+                vid    == [ i \in 1 .. q |-> IF sys.id[i] # 0 THEN sys.id[i] ELSE 7000 + i ]
+                Lb     == FoldLeft(LAMBDA acc, i : IF sys.id[i] = 0 THEN LAlloc(acc, 7000 + i) ELSE acc, sys.L, [ i \in 1 .. q |-> i ])
+                restid == [ i \in 1 .. Len(rows) |-> IF i <= q THEN 0 ELSE sys.id[i] ]
+                \* result mapping: repair variables freed; each missing source takes the next variable (copied into the
+                \* callback's buffer and freed when a callback is registered); the variables left over are freed
+                hpos(e) == nrepml + (CHOOSE t \in DOMAIN holes : holes[t] = e)
+                Lr1    == FreeAll(Lb, [ j \in 1 .. (IF bad THEN 0 ELSE nrepml) |-> vid[j] ])
+                Lr2    == IF bad THEN Lr1
+                          ELSE FoldLeft(LAMBDA acc, e : IF UseCb THEN [LFree(acc, vid[hpos(e)]) EXCEPT !.bid[e] = -2]
+                                                        ELSE [acc EXCEPT !.bid[e] = vid[hpos(e)]], Lr1, holes)
+                Lr3    == IF bad THEN Lr2 ELSE FreeAll(Lr2, [ j \in 1 .. (q - nrepml - Len(holes)) |-> vid[nrepml + Len(holes) + j] ])
+                Lend   == FreeAll(FreeAll(Lr3, restid), arrays)
+            IN  [ st |-> [st1 EXCEPT !.tab = tab2, !.M = {}, !.led = Lend,
+                                     !.ct = [ rw \in Rows(p) |-> IF RowMembers(st1, rw) # {} THEN NoVal ELSE st1.ct[rw] ]],
+                  status |-> OK, nulldest |-> sol.nulldest, badindex |-> bad, stage |-> "ge", piv |-> sys.piv, dims |-> <<Len(rows), q>> ]
 
 Perms(p) ==   \* a few permutations of 0..r-1 as sequences: identity, reverse, rotation, interleaved
     LET r == p.r
@@ -173,6 +228,21 @@ MlSound == \A i \in Src(pt) : tab[i] # NoVal => tab[i] = CwTab[pt][i]
 (* no NULL destination of an XOR, result mapping stays inside the variable table *)
 MlNoNullDest == Finished => ~fin.nulldest
 MlIndexInRange == Finished => ~fin.badindex
+(* C08, model side: after of_finish_decoding returns, whatever its outcome, the heap holds exactly the constant terms  *)
+(* still attached to equations, the buffers of the known symbols and the two index arrays kept for release (no work   *)
+(* area, no right-hand side created by the elimination, no solved variable is left behind or freed twice); everything *)
+(* of_release_codec_instance does not free is a source symbol buffer, which the API leaves to the application.        *)
+MlLedgerOK ==
+    LET cts  == { led.ctid[row] : row \in { r2 \in Rows(pt) : led.ctid[r2] > 0 } }
+        bufs == { led.bid[e] : e \in { e2 \in 0 .. (N(pt) - 1) : led.bid[e2] > 0 } }
+    IN  Finished => /\ ~led.bad
+                    /\ led.heap \ {5005, 5006} = cts \cup bufs
+                    /\ Cardinality(cts) + Cardinality(bufs) = Cardinality(cts \cup bufs)
+                    /\ \A row \in Rows(pt) : (ct[row] # NoVal) <=> (led.ctid[row] > 0)
+                    /\ \A e \in 0 .. (N(pt) - 1) : (tab[e] # NoVal) <=> (led.bid[e] # 0)
+MlNoLeakAtRelease ==
+    Finished => (led.heap \ ({5005, 5006} \cup { led.ctid[row] : row \in Rows(pt) } \cup { led.bid[e] : e \in pt.k .. (N(pt) - 1) }))
+                    \subseteq { led.bid[i] : i \in Src(pt) }
 (* the definitional lemma used by the API specification: for staircase systems "determined" *)
 (* coincides with full column rank of the unknown columns after peeling                     *)
 RankLemma == Determined <=> FullColumnRank(HOf(pt), PeelClosure(HOf(pt), rcvd \cup PreKnown))
